@@ -124,3 +124,162 @@ package part
 //@   ensures @wf16 kindOf(n.flags) == 3 ==> wf16(as(node16, n)) && as(node16, n).children[idx] == child && as(node16, n).keys[idx] == old(keyOf(child))
 //@   ensures @shift4 kindOf(n.flags) == 2 ==> (forall i int :: 0 <= i && i < idx ==> as(node4, n).children[i] == old(as(node4, n).children[i])) && (forall i int :: idx < i && i < sizeOf(n.flags) ==> as(node4, n).children[i] == old(as(node4, n).children[i-1]))
 //@   ensures @shift16 kindOf(n.flags) == 3 ==> (forall i int :: 0 <= i && i < idx ==> as(node16, n).children[i] == old(as(node16, n).children[i])) && (forall i int :: idx < i && i < sizeOf(n.flags) ==> as(node16, n).children[i] == old(as(node16, n).children[i-1]))
+
+// ---------------------------------------------------------------------------
+// Ownership by transaction id (C01, C11, C12, C06).
+// A non-leaf node may be mutated in place only by the transaction whose id it carries. So:
+//  * a transaction starts with the id the tree reserved for it (nextTxnID);
+//  * every operation that lets the current root escape (Clone, Commit, iterators) first
+//    moves the transaction to a new id, and hands out nextTxnID equal to that new id;
+//  * a node is stamped with the transaction's id only if its watch channel is nil, was
+//    created by this very operation, or has been recorded for closing (otherwise a reader
+//    holding the old channel would never be notified of in-place changes).
+
+//@ spec txnIDOf(n *header) mathint = kindOf(n.flags) == 2 ? as(node4, n).txnID : (kindOf(n.flags) == 3 ? as(node16, n).txnID : (kindOf(n.flags) == 4 ? as(node48, n).txnID : (kindOf(n.flags) == 5 ? as(node256, n).txnID : 0)))
+
+//@ spec leafOf(n *header) *leaf = kindOf(n.flags) == 1 ? as(leaf, n) : (kindOf(n.flags) == 2 ? as(node4, n).leaf : (kindOf(n.flags) == 3 ? as(node16, n).leaf : (kindOf(n.flags) == 4 ? as(node48, n).leaf : as(node256, n).leaf)))
+//@ func (*header).getLeaf
+//@   property C11
+//@   maypanic
+//@   pure
+//@   requires n != nil && 1 <= kindOf(n.flags) && kindOf(n.flags) <= 5
+//@   ensures result == leafOf(n)
+//@   ensures kindOf(n.flags) == 1 ==> result != nil && addr(result.header) == n
+//@ func (*header).setLeaf
+//@   property C11
+//@   maypanic
+//@   requires n != nil && 2 <= kindOf(n.flags) && kindOf(n.flags) <= 5
+//@   modifies H_part_node4_leaf H_part_node16_leaf H_part_node48_leaf H_part_node256_leaf
+//@   ensures leafOf(n) == l
+//@ func (*header).isLeaf
+//@   property C11
+//@   pure
+//@   requires n != nil
+//@   ensures result <==> kindOf(n.flags) == 1
+
+//@ func (*header).txnID
+//@   property C01 C11
+//@   maypanic
+//@   pure
+//@   requires n != nil && 1 <= kindOf(n.flags) && kindOf(n.flags) <= 5
+//@   ensures result == txnIDOf(n)
+//@ func (*header).setTxnID
+//@   property C01 C11
+//@   maypanic
+//@   requires n != nil && 1 <= kindOf(n.flags) && kindOf(n.flags) <= 5
+//@   modifies H_part_node4_txnID H_part_node16_txnID H_part_node48_txnID H_part_node256_txnID
+//@   ensures kindOf(n.flags) != 1 ==> txnIDOf(n) == txnID
+//@ func (*header).clone
+//@   property C01 C11 C12
+//@   maypanic
+//@   requires n != nil && 1 <= kindOf(n.flags) && kindOf(n.flags) <= 5
+//@   ensures @nonnil result != nil
+//@   ensures @fresh fresh(result)
+//@   ensures @kind kindOf(result.flags) == kindOf(n.flags)
+//@   ensures @watch (watch ==> result.watch != nil && fresh(result.watch)) && (!watch ==> result.watch == nil)
+//@   ensures @frame onlyFresh()
+//@ func newTxn
+//@   inline
+//@ func options.rootOnlyWatch
+//@   trusted
+//@   pure
+
+//@ func (*Tree).Txn
+//@   property C01 C11
+//@   flag nosafety
+//@   requires t != nil && t.prevTxn != nil
+//@   ensures @starts-at-reserved-id result != nil && result.txnID == t.nextTxnID && result.root == t.root && result.oldRoot == t.root && result.size == t.size && result.rootWatch == t.rootWatch && !result.dirty
+
+//@ func (*Txn).Clone
+//@   property C01 C11 C17
+//@   requires txn != nil
+//@   ensures @bump-before-escape txn.txnID == old(txn.txnID) + 1 && result.nextTxnID == txn.txnID && result.root == txn.root && result.size == txn.size
+//@ func (*Txn).Commit
+//@   property C01 C11
+//@   flag nosafety
+//@   requires txn != nil && txn.prevTxn != nil
+//@   ensures @bump-before-escape txn.txnID == old(txn.txnID) + 1 && result.nextTxnID == txn.txnID && result.root == txn.root && result.size == txn.size
+//@   ensures @root-watch (!old(txn.dirty) ==> result.rootWatch == old(txn.rootWatch)) && (old(txn.dirty) ==> fresh(result.rootWatch))
+//@ func validateTree
+//@   trusted
+//@   pure
+//@ func validateRemovedWatches
+//@   trusted
+//@   pure
+//@ func newIterator
+//@   trusted
+//@   pure
+//@ func prefixSearch
+//@   trusted
+//@   pure
+//@ func lowerbound
+//@   trusted
+//@   pure
+//@ func (*Txn).Iterator
+//@   property C01 C11
+//@   requires txn != nil
+//@   atcall newIterator@1 requires @bump-before-escape txn.txnID == old(txn.txnID) + 1
+//@   ensures txn.txnID == old(txn.txnID) + 1
+//@ func (*Txn).Prefix
+//@   property C01 C11
+//@   requires txn != nil
+//@   atcall prefixSearch@1 requires @bump-before-escape txn.txnID == old(txn.txnID) + 1
+//@   ensures txn.txnID == old(txn.txnID) + 1
+//@ func (*Txn).LowerBound
+//@   property C01 C11
+//@   requires txn != nil
+//@   atcall lowerbound@1 requires @bump-before-escape txn.txnID == old(txn.txnID) + 1
+//@   ensures txn.txnID == old(txn.txnID) + 1
+
+// cloneNode: the result is owned by the transaction; if a copy had to be made, the original's
+// watch channel is recorded for closing and the copy gets a fresh channel (or none).
+//@ func (*Txn).cloneNode
+//@   property C01 C11 C12 C06
+//@   maypanic
+//@   requires txn != nil && n != nil && 1 <= kindOf(n.flags) && kindOf(n.flags) <= 5 && txn.watches != nil
+//@   atcall (*header).setTxnID@* requires @stamp-only-with-safe-watch $0.watch == nil || fresh($0.watch) || has(txn.watches, $0.watch)
+//@   ensures @owned result != nil && (kindOf(result.flags) != 1 ==> txnIDOf(result) == txn.txnID)
+//@   ensures @copy-or-same result == n || (fresh(result) && (old(n.watch) != nil ==> has(txn.watches, old(n.watch))))
+//@   ensures @same-only-if-owned result == n ==> old(txnIDOf(n)) == txn.txnID
+
+// delete / removeChild / modify: wherever a node is stamped with the transaction's id, its
+// watch channel is nil, fresh, or recorded for closing (see above).
+//@ func (*header).prefix
+//@   trusted
+//@   pure
+//@ func (*header).children
+//@   trusted
+//@   pure
+//@ func (*header).cap
+//@   trusted
+//@   pure
+//@ func (*header).setPrefix
+//@   trusted
+//@   modifies H_part_header_prefixP H_part_header_prefixLen
+//@ func (*header).promote
+//@   trusted
+//@   ensures result != nil && fresh(result) && (result.watch == nil || fresh(result.watch))
+//@ func newLeaf
+//@   trusted
+//@   ensures result != nil && fresh(result) && (result.watch == nil || fresh(result.watch))
+//@ func (*Txn).removeChild
+//@   property C12 C06 C01
+//@   flag nosafety
+//@   flag assumepre=tree-representation-invariant
+//@   maypanic
+//@   requires txn != nil && parent != nil && txn.watches != nil && 1 <= kindOf(parent.flags) && kindOf(parent.flags) <= 5
+//@   atcall (*header).setTxnID@* requires @stamp-only-with-safe-watch $0.watch == nil || fresh($0.watch) || has(txn.watches, $0.watch)
+//@ func (*Txn).delete
+//@   property C12 C06 C01
+//@   flag nosafety
+//@   flag assumepre=tree-representation-invariant
+//@   maypanic
+//@   requires txn != nil && txn.watches != nil
+//@   atcall (*header).setTxnID@* requires @stamp-only-with-safe-watch $0.watch == nil || fresh($0.watch) || has(txn.watches, $0.watch)
+//@ func (*Txn).modify
+//@   property C12 C06 C01
+//@   flag nosafety
+//@   flag assumepre=tree-representation-invariant
+//@   maypanic
+//@   requires txn != nil && txn.watches != nil
+//@   atcall (*header).setTxnID@* requires @stamp-only-with-safe-watch $0.watch == nil || fresh($0.watch) || has(txn.watches, $0.watch)
